@@ -2,10 +2,12 @@
    The models (Model/C14_DataGen.v, Model/C14_Streams.v) are the code AS REPAIRED by /verif/fixes/C14-*.diff — the model the
    harness executes and compares with the implementation.  `..._before_fix_refuted` theorems are about the separately
    labelled definitions of Model/C14_BeforeFix.v ("as coded before the fix"). *)
-From Coq Require Import ZArith QArith Qcanon List Lia.
+From Coq Require Import Reals ZArith QArith Qcanon List Lia.
 From QV.Core Require Import OF QcOF.
 From QV.Model Require Import Multinomial C14_DataGen C14_Streams C14_BeforeFix C14_ExpHist.
-From QV.Proofs Require Import C14_DataGen C14_Streams C14_BeforeFix C14_ExpHist.
+From QV.Proofs Require Import C14_DataGen C14_Streams C14_BeforeFix C14_ExpHist C14_Binary64.
+From QV.Core Require Import ROF.
+From Flocq Require Import IEEE754.BinarySingleNaN.
 Import ListNotations.
 
 (* ---------------------------------------------------------------- inversion sampling (_random_number_to_data) *)
@@ -53,6 +55,40 @@ Theorem C14_only_positive_probability_outcomes : forall (F : OF) (add : F -> F -
   exists n : nat, rn2data_r F add ps r = Z.of_nat n /\ (n < length ps)%nat /\ klt F (c0 F) (nth n ps (c0 F)).
 Proof. exact rn2data_r_valid. Qed.
 Print Assumptions C14_only_positive_probability_outcomes.
+
+(* the same with the monotonicity fact required only on a set rep of "representable" accumulator values that contains 0 and
+   is closed under add (what a floating-point format provides) *)
+Theorem C14_only_positive_probability_outcomes_representable : forall (F : OF) (add : F -> F -> F) (rep : F -> Prop),
+  rep (c0 F) -> (forall c p, rep c -> rep (add c p)) -> (forall c p, rep c -> kle F p (c0 F) -> kle F (add c p) c) ->
+  forall (ps : list F) (r : F), kle F (c0 F) r -> has_pos F ps ->
+  exists n : nat, rn2data_r F add ps r = Z.of_nat n /\ (n < length ps)%nat /\ klt F (c0 F) (nth n ps (c0 F)).
+Proof. exact rn2data_r_valid_rep. Qed.
+Print Assumptions C14_only_positive_probability_outcomes_representable.
+
+(* THE BINARY64 FACT (Flocq): c a binary64 number, p <= 0  ==>  round-to-nearest-even(c + p) <= c, and the result is a binary64
+   number again (format FLT(-1074,53): subnormals included, exponent unbounded above) ... *)
+Theorem C14_binary64_rounded_addition_monotone : forall c p : R,
+  (format64 c -> (p <= 0)%R -> (add64 c p <= c)%R) /\ format64 (add64 c p) /\ format64 0%R.
+Proof. intros c p. split; [exact (add64_nonpos c p)|]. split; [exact (format64_add64 c p)|exact format64_0]. Qed.
+Print Assumptions C14_binary64_rounded_addition_monotone.
+
+(* ... and for the IEEE-754 addition itself on finite binary64 values (Flocq's Bplus, round to nearest even): with 0 <= c and
+   p <= 0 it cannot overflow, its value is add64 and does not exceed c *)
+Theorem C14_ieee_binary64_addition_monotone : forall c p : b64,
+  is_finite c = true -> is_finite p = true -> (0 <= B2R c)%R -> (B2R p <= 0)%R ->
+  is_finite (b64_plus c p) = true /\ B2R (b64_plus c p) = add64 (B2R c) (B2R p) /\ (B2R (b64_plus c p) <= B2R c)%R.
+Proof. exact b64_plus_nonpos. Qed.
+Print Assumptions C14_ieee_binary64_addition_monotone.
+
+(* hence, with BINARY64-ROUNDED accumulation (`cumulative_sum += prob` in double precision): every r >= 0, every vector of reals
+   with a positive entry -> the outcome is in range and has positive probability.  (Comparisons are exact in binary64; what is
+   NOT in this statement: overflow / NaN / infinities, which validate_prob_dist excludes, and that numpy's float64 `+` is this
+   IEEE operation - hardware, an oracle.) *)
+Theorem C14_only_positive_probability_outcomes_binary64 : forall (ps : list R) (r : R),
+  (0 <= r)%R -> has_pos R_OF ps ->
+  exists n : nat, rn2data_r R_OF add64 ps r = Z.of_nat n /\ (n < length ps)%nat /\ klt R_OF 0%R (nth n ps 0%R).
+Proof. exact rn2data_binary64_valid. Qed.
+Print Assumptions C14_only_positive_probability_outcomes_binary64.
 
 (* the single-loop transcription with exact addition IS the model rn2data (the function the harness executes, and the one
    the Python text is proved equal to on every run, coq/gen/C14_Equiv.v) *)
@@ -285,7 +321,8 @@ Context {G V : Type} (draw : G -> req -> V * G) (mkgen gseed : Z -> G).
    denotes NOW, and int_seed_output (arguments and seed only) — nothing else of the world enters *)
 Theorem C14_experiment_seeded_call_value : forall (o : nat) (e : ecall) (z : Z) (w : @xworld G),
   fst (xstep draw mkgen gseed (XCall o e (SInt z)) w) =
-  XOut (conts w o) (circuits (conts w o)) (int_seed_output draw mkgen (to_call (conts w o) e) z).
+  if ecall_attr_error (conts w o) e then XErr 18       (* a needed schedule ends in an mprocess: calc_prob_dist raises AttributeError *)
+  else XOut (conts w o) (circuits (conts w o)) (int_seed_output draw mkgen (to_call (conts w o) e) z).
 Proof. exact (xcall_int_seed_value draw mkgen gseed). Qed.
 
 (* for ALL histories (generate_* / calc_prob_dist calls, in-place replacement of list elements, whole-list and schedule
@@ -326,7 +363,29 @@ Theorem C14_experiment_copy_contents : forall (o : nat) (w : @xworld G),
              conts (snd (xstep draw mkgen gseed (XCopy o) w)) o' = conts w o /\
              (forall o'', o'' <> o' -> conts (snd (xstep draw mkgen gseed (XCopy o) w)) o'' = conts w o'').
 Proof. exact (copy_contents draw mkgen gseed). Qed.
+(* ALIASING: copy() copies the outer schedule list only - the copy shares the INNER lists with its original ... *)
+Theorem C14_experiment_copy_shares_inner_schedule_lists : forall (o : nat) (w : @xworld G),
+  scheds_err (conts w o) (e_sched (conts w o)) = None ->
+  stags (snd (xstep draw mkgen gseed (XCopy o) w)) (nobj (base w)) = stags w o /\
+  (forall o', o' <> nobj (base w) -> stags (snd (xstep draw mkgen gseed (XCopy o) w)) o' = stags w o').
+Proof. exact (copy_shares_inner_schedule_lists draw mkgen gseed). Qed.
+(* ... so `experiment.schedules[s][j] = item` changes entry j of that inner list in EVERY object sharing it (and nowhere else);
+   element lists and random state are untouched *)
+Theorem C14_experiment_in_place_schedule_item_is_shared : forall (o s j : nat) (it : nat * nat) (t : nat) (items : list (nat * nat)) (w : @xworld G),
+  nth_error (stags w o) s = Some t -> nth_error (e_sched (conts w o)) s = Some items -> (j < length items)%nat ->
+  let w' := snd (xstep draw mkgen gseed (XSetSchedItem o s j it) w) in
+  fst (xstep draw mkgen gseed (XSetSchedItem o s j it) w) = XUnit /\ base w' = base w /\
+  (forall o' s', length (stags w o') = length (e_sched (conts w o')) ->
+     nth_error (e_sched (conts w' o')) s' =
+     match nth_error (stags w o') s', nth_error (e_sched (conts w o')) s' with
+     | Some t', Some items' => Some (if Nat.eqb t' t then set_nth j it items' else items')
+     | _, _ => None
+     end) /\
+  (forall o' k, elist k (conts w' o') = elist k (conts w o')).
+Proof. exact (set_sched_item_shared draw mkgen gseed). Qed.
 End ExpHist.
+Print Assumptions C14_experiment_copy_shares_inner_schedule_lists.
+Print Assumptions C14_experiment_in_place_schedule_item_is_shared.
 Print Assumptions C14_experiment_seeded_call_value.
 Print Assumptions C14_experiment_seeded_call_function_of_current_contents.
 Print Assumptions C14_experiment_seeded_call_equals_fresh_experiment.
@@ -375,9 +434,18 @@ Definition ex_cont : econt := {| e_states := [7%nat]; e_povms := [3%nat; 4%nat];
 Example C14_example_experiment_history :
   map (fun r => match r with XOut _ t _ => t | _ => [] end)
       (fst (xexec fdraw fmkgen fgseed [XConstruct ex_cont None; XCall 0 (EData 1 5%Z) (SInt 11%Z); XSetItem 0 0 0 9;
-                                       XCall 0 (EData 1 5%Z) (SInt 11%Z)] {| base := fworld0; conts := fun _ => econt0 |}))
+                                       XCall 0 (EData 1 5%Z) (SInt 11%Z)] {| base := fworld0; conts := fun _ => econt0; stags := fun _ => []; ntag := O |}))
   = [[]; [Some [(0, 7); (1, 3)]; Some [(0, 7); (1, 4)]]; []; [Some [(0, 9); (1, 3)]; Some [(0, 9); (1, 4)]]]%nat
   /\ scheds_err ex_cont (e_sched ex_cont) = None.
+Proof. vm_compute. split; reflexivity. Qed.
+
+(* aliasing: construct, copy, then `copy.schedules[1][1] = (povm, 0)`: the ORIGINAL's schedule 1 changes too; after
+   `copy.schedules = ...` a further in-place change of the copy leaves the original alone *)
+Example C14_example_schedule_aliasing :
+  let w := snd (xexec fdraw fmkgen fgseed [XConstruct ex_cont None; XCopy 0; XSetSchedItem 1 1 1 (1, 0); XSetSched 1 [[(0, 0); (1, 1)]];
+                                           XSetSchedItem 1 0 1 (1, 0)]%nat
+                      {| base := fworld0; conts := fun _ => econt0; stags := fun _ => []; ntag := O |}) in
+  e_sched (conts w 0) = [[(0, 0); (1, 0)]; [(0, 0); (1, 0)]]%nat /\ e_sched (conts w 1) = [[(0, 0); (1, 0)]]%nat.
 Proof. vm_compute. split; reflexivity. Qed.
 
 (* stream theorems are non-vacuous: on the free generator a QST-like object with 3 schedules, sample sizes [5;10], int seed 7:
